@@ -352,25 +352,25 @@ func writeEvidence(c *Ctx, p *propDef, tier string, seed int, wall float64, nVio
 		"seed":        seed,
 		"level":       "other",
 		"coverage": map[string]interface{}{
-			"explanation":           p.Explanation,
-			"evaluations":           len(c.Obls),
-			"distinct_nontrivial":   nNon,
-			"rule":                  "one evaluation = one obligation (a rule instance at one construct of the type-checked SSA program of /repo); non-trivial = deciding it needed a path, dominance, lock-set or data-flow argument over the function (anchor-resolution and presence-only obligations are trivial); distinct = distinct (rule, function, construct)",
-			"samples":               samples,
-			"obligations":           len(c.Obls),
-			"discharged":            nDis,
-			"exempt":                nEx,
-			"failing":               nViol,
-			"exemptions":            c.exempts,
-			"rules":                 rules,
-			"packages_loaded":       nPk,
-			"functions_in_module":   len(c.SrcFns),
-			"functions_with_oblig.": len(fnSet),
+			"explanation":            p.Explanation,
+			"evaluations":            len(c.Obls),
+			"distinct_nontrivial":    nNon,
+			"rule":                   "one evaluation = one obligation (a rule instance at one construct of the type-checked SSA program of /repo); non-trivial = deciding it needed a path, dominance, lock-set or data-flow argument over the function (anchor-resolution and presence-only obligations are trivial); distinct = distinct (rule, function, construct)",
+			"samples":                samples,
+			"obligations":            len(c.Obls),
+			"discharged":             nDis,
+			"exempt":                 nEx,
+			"failing":                nViol,
+			"exemptions":             c.exempts,
+			"rules":                  rules,
+			"packages_loaded":        nPk,
+			"functions_in_module":    len(c.SrcFns),
+			"functions_with_oblig.":  len(fnSet),
 			"files_with_obligations": sortedKeys(dirSet),
-			"checker_cmd":           "/verif/bin/galaxycheck -prop " + p.ID + " -tier " + tier,
-			"trusted_base":          []string{"go/types (go1.23)", "golang.org/x/tools v0.29.0 go/packages + go/ssa", "the rule tables in /verif/checker/rules_*.go and lock.go (guardSpecs)"},
-			"notes":                 c.notes,
-			"exhaustive":            false,
+			"checker_cmd":            "/verif/bin/galaxycheck -prop " + p.ID + " -tier " + tier,
+			"trusted_base":           []string{"go/types (go1.23)", "golang.org/x/tools v0.29.0 go/packages + go/ssa", "the rule tables in /verif/checker/rules_*.go and lock.go (guardSpecs)"},
+			"notes":                  c.notes,
+			"exhaustive":             false,
 		},
 		"assumptions": p.Assumptions,
 		"wall_s":      wall,
